@@ -108,6 +108,10 @@ def _facts(guards):
                 facts.add('has_compound' if pol else 'all_atoms')
             elif p == has_atom:
                 facts.add('has_atom' if pol else 'no_atoms')
+            elif p == T._negate_bool(has_compound):
+                facts.add('all_atoms' if pol else 'has_compound')
+            elif p == T._negate_bool(has_atom):
+                facts.add('no_atoms' if pol else 'has_atom')
             elif p[0] == 'const':
                 continue
             else:
@@ -204,6 +208,53 @@ def decide_path(s, guards, leaf):
     elif name is None:
         name = 'path(' + ','.join(sorted(facts)) + ')'
     res = {'name': name, 'sign': s, 'facts': sorted(facts)}
+    r0 = _decide_symbolic(s, guards, leaf, facts, unknown, res)
+    # fallback / cross-check: bounded abstract enumeration refutes (or supports) what the linear-form argument could not decide
+    if r0['aff'][0] == 'inconclusive' or r0['safe'][0] == 'inconclusive':
+        bst, btxt = bounded_check(s, guards, leaf)
+        if r0['aff'][0] == 'inconclusive':
+            r0['aff'] = (bst, btxt + ' | ' + r0['aff'][1][:200])
+        if r0['safe'][0] == 'inconclusive' and bst != 'inconclusive':
+            r0['safe'] = _bounded_safe(s, guards, leaf)
+        if r0.get('digest') in (None, 'x'):
+            r0['digest'] = hashlib.sha256(repr(leaf).encode()).hexdigest()[:10]
+            if name.startswith('path('):
+                r0['name'] = 'path#' + r0['digest'][:6]
+    return r0
+
+
+def _bounded_safe(s, guards, leaf):
+    """typestate by enumeration: on every feasible abstract state sign' = +1 or there is no compound child"""
+    import itertools as it
+    try:
+        for nA, nK in it.product(range(0, 3), range(0, 3)):
+            for v in range(-3, 5):
+                st = {'v': v, 'nA': nA, 'nK': nK}
+                if not all(bool(interp(g, st)) == pol for g, pol in guards):
+                    continue
+                obj = leaf[1]
+                if obj[0] == 'call' and obj[1][0] == 'attr' and obj[1][2] == 'negate':
+                    continue            # the negation of a child: solver-safe by induction
+                upd = {}
+                base = obj
+                while base[0] == 'upd':
+                    upd.setdefault(base[2], base[3])
+                    base = base[1]
+                kw = dict(base[3]) if base[0] == 'call' else {}
+                sg = interp(upd.get('sign', kw.get('sign')), st)
+                ch = _strip_list(upd.get('propositions', kw.get('propositions')))
+                keeps_compounds = (ch == P_SELF and nK > 0) or (ch[0] == 'map' and nK > 0) or (ch == COMP and nK > 0)
+                if sg == -1 and keeps_compounds:
+                    return ('violation', f"sign' = -1 with compound children (value={v}, {nA} atoms, {nK} compounds): not solver-safe")
+        return ('ok', "by enumeration: sign' = +1 or no compound child on every feasible abstract state")
+    except Uninterp as e:
+        return ('inconclusive', f"not interpretable: {e}")
+    except Exception as e:
+        return ('inconclusive', f"typestate not decidable: {e!r}")
+
+
+def _decide_symbolic(s, guards, leaf, facts, unknown, res):
+    name = res['name']
     if leaf[0] != 'ret':
         res['aff'] = ('violation', f"path ends in {leaf[0]} instead of returning a proposition")
         res['safe'] = res['idrule'] = ('ok', '')
@@ -221,8 +272,13 @@ def decide_path(s, guards, leaf):
         upd.setdefault(base[2], base[3])
         base = base[1]
     if not (base[0] == 'call' and base[1] == T.G(ATLEAST) and not base[2]):
-        res['aff'] = res['safe'] = res['idrule'] = ('inconclusive', 'returned object is not built by AtLeast(...): ' + T.show(base)[:200])
+        res['aff'] = res['safe'] = ('inconclusive', 'returned object is not built by AtLeast(...): ' + T.show(base)[:200])
         res['digest'] = 'x'
+        if base[0] == 'call' and base[1][0] == 'attr' and base[1][2] == 'negate':
+            res['idrule'] = ('violation', f"the path returns `{T.show(base)[:120]}` - the negation of a child, which carries the child's id: an "
+                                          f"explicitly given id of the negated node is not kept")
+        else:
+            res['idrule'] = ('inconclusive', 'id of the returned object not determined')
         return res
     kw = dict(base[3])
     sign2 = upd.get('sign', kw.get('sign'))
@@ -236,6 +292,24 @@ def decide_path(s, guards, leaf):
         return res
     res['digest'] = hashlib.sha256(repr((sign2, value2, children2)).encode()).hexdigest()[:10]
     res['triple'] = f"sign'={T.show(sign2)}, value'={T.show(value2)}, children'={T.show(children2)[:300]}"
+    if sign2[0] == 'if' and all(x[0] == 'const' and x[1] in (1, -1) for x in (sign2[2], sign2[3])) and sign2[2] != sign2[3]:
+        # sign' depends on a run-time condition: both outcomes are possible results of this path and each must be a complement
+        subs = []
+        for leafsign, pol in ((sign2[2], True), (sign2[3], False)):
+            leaf2 = ('ret', ('upd', obj, 'sign', leafsign), eff)
+            r2 = decide_path(s, guards, leaf2)
+            subs.append((leafsign[1], r2))
+        bad = [(sg, r2) for sg, r2 in subs if r2['aff'][0] != 'ok' or r2['safe'][0] != 'ok']
+        res['idrule'] = subs[0][1]['idrule']
+        if bad:
+            sg, r2 = bad[0]
+            cond = T.show(sign2[1])[:160]
+            res['aff'] = (r2['aff'][0] if r2['aff'][0] != 'ok' else 'ok', f"sign' is chosen at run time by `{cond}`; when it is {sg:+d}: " + r2['aff'][1])
+            res['safe'] = (r2['safe'][0] if r2['safe'][0] != 'ok' else 'ok', f"sign' is chosen at run time by `{cond}`; when it is {sg:+d}: " + r2['safe'][1])
+        else:
+            res['aff'] = ('ok', 'both run-time choices of sign satisfy the complement identity')
+            res['safe'] = ('ok', 'both run-time choices of sign are solver-safe')
+        return res
     if eff:
         res['aff'] = ('violation', 'negate() has side effects: ' + '; '.join(T.show(e)[:120] for e in eff))
     elif sign2[0] != 'const' or sign2[1] not in (1, -1):
@@ -281,6 +355,152 @@ def decide_path(s, guards, leaf):
         got = upd['variable']
     res['idrule'] = ('ok', '') if got == want else ('violation', f"variable of the result is {T.show(got) if got else 'missing'}, expected None if generated_id else self.variable")
     return res
+
+
+# ------------------------------------------------------------------------------------------------
+# bounded abstract check (refutation / fallback): the abstract state of a node is (value v, number of atom children n_A,
+# number of compound children n_K, 0/1 values of the children). Path conditions and value' are interpreted over it.
+# ------------------------------------------------------------------------------------------------
+class Uninterp(Exception):
+    pass
+
+
+def _G_of(x):
+    """concat(COMP, [G]) -> G term, or None"""
+    x = _strip_list(x)
+    if x[0] == 'concat' and len(x[1]) == 2 and _strip_list(x[1][0]) == COMP and x[1][1][0] == 'list' and len(x[1][1][1]) == 1:
+        return x[1][1][1][0]
+    return None
+
+
+def interp(t, st):
+    k = t[0]
+    if k == 'const':
+        if isinstance(t[1], (bool, int)):
+            return int(t[1]) if isinstance(t[1], bool) else t[1]
+        raise Uninterp(T.show(t))
+    if t == ('attr', T.V('self'), 'value'):
+        return st['v']
+    if k == 'call' and t[1] == T.G('len') and len(t[2]) == 1:
+        x = _strip_list(t[2][0])
+        if x == P_SELF:
+            return st['nA'] + st['nK']
+        if x == COMP:
+            return st['nK']
+        if x == ATOMS:
+            return st['nA']
+        if _G_of(x) is not None:
+            return st['nK'] + 1
+        raise Uninterp(T.show(t))
+    if k == 'call' and t[1] in (T.G('abs'), T.G('min'), T.G('max'), T.G('int')) and not t[3]:
+        args = [interp(a, st) for a in t[2]]
+        return {'abs': abs, 'min': min, 'max': max, 'int': int}[t[1][1]](*args)
+    if k == 'poly':
+        tot = 0
+        for c, mono in t[1]:
+            prod = c
+            for a in mono:
+                prod *= interp(a, st)
+            tot += prod
+        return tot
+    if k == 'binop' and t[1] in ('Add', 'Sub', 'Mult'):
+        a, b = interp(t[2], st), interp(t[3], st)
+        return a + b if t[1] == 'Add' else (a - b if t[1] == 'Sub' else a * b)
+    if k == 'ge0':
+        return int(interp(t[1], st) >= 0)
+    if k == 'cmp' and t[1] in ('Eq', 'NotEq', 'Lt', 'LtE', 'Gt', 'GtE'):
+        a, b = interp(t[2], st), interp(t[3], st)
+        return int({'Eq': a == b, 'NotEq': a != b, 'Lt': a < b, 'LtE': a <= b, 'Gt': a > b, 'GtE': a >= b}[t[1]])
+    if k == 'not':
+        return int(not interp(t[1], st))
+    if k == 'and':
+        return int(all(interp(x, st) for x in t[1]))
+    if k == 'or':
+        return int(any(interp(x, st) for x in t[1]))
+    if k == 'if':
+        return interp(t[2], st) if interp(t[1], st) else interp(t[3], st)
+    raise Uninterp(T.show(t)[:120])
+
+
+def _truth_of_result(obj, st, atoms, comps):
+    """truth value (0/1) of the proposition returned on this path, in abstract state st with the given child values"""
+    # (b) the negation of one single child is returned
+    if obj[0] == 'call' and obj[1][0] == 'attr' and obj[1][2] == 'negate' and not obj[2] and obj[1][1][0] == 'sub' and obj[1][1][2] == T.C(0):
+        src = _strip_list(obj[1][1][1])
+        if src == COMP and comps:
+            return 1 - comps[0], 'child'
+        g = _G_of(src)
+        if g is not None:
+            seq = list(comps) + [_truth_G(g, st, atoms)]
+            return 1 - seq[0], 'child'
+        raise Uninterp('negate() of ' + T.show(src)[:80])
+    upd = {}
+    base = obj
+    while base[0] == 'upd':
+        upd.setdefault(base[2], base[3])
+        base = base[1]
+    if not (base[0] == 'call' and base[1] == T.G(ATLEAST) and not base[2]):
+        raise Uninterp('result is not AtLeast(...)')
+    kw = dict(base[3])
+    sign2 = interp(upd.get('sign', kw.get('sign')), st)
+    value2 = interp(upd.get('value', kw.get('value')), st)
+    ch = _strip_list(upd.get('propositions', kw.get('propositions')))
+    if ch == P_SELF:
+        total = sum(atoms) + sum(comps)
+    elif ch[0] == 'map' and ch[1][0] == 'lam' and ch[1][2] == T.call(('attr', ('bv', 0, 0), 'negate'), []):
+        src = _strip_list(ch[2])
+        if src == COMP:
+            total = sum(1 - c for c in comps)
+        elif _G_of(src) is not None:
+            total = sum(1 - c for c in comps) + (1 - _truth_G(_G_of(src), st, atoms))
+        elif src == ATOMS:
+            total = sum(1 - a for a in atoms)
+        elif src == P_SELF:
+            total = sum(1 - a for a in atoms) + sum(1 - c for c in comps)
+        else:
+            raise Uninterp('children ' + T.show(src)[:80])
+    elif ch == COMP:
+        total = sum(comps)
+    elif ch == ATOMS:
+        total = sum(atoms)
+    else:
+        raise Uninterp('children ' + T.show(ch)[:80])
+    return int(sign2 * total - value2 >= 0), ('own' if True else '')
+
+
+def _truth_G(g, st, atoms):
+    kw = dict(g[3])
+    sg = interp(kw.get('sign'), st) if kw.get('sign', T.NONE) != T.NONE else (1 if interp(kw.get('value'), st) > 0 else -1)
+    return int(sg * sum(atoms) - interp(kw.get('value'), st) >= 0)
+
+
+def bounded_check(s, guards, leaf):
+    """-> ('violation', witness text) | ('ok', text) | ('inconclusive', text)"""
+    import itertools as it
+    if leaf[0] != 'ret':
+        return ('inconclusive', 'path does not return')
+    npoints = 0
+    try:
+        for nA, nK in it.product(range(0, 3), range(0, 3)):
+            for v in range(-3, 5):
+                st = {'v': v, 'nA': nA, 'nK': nK}
+                feasible = all(bool(interp(g, st)) == pol for g, pol in guards)
+                if not feasible:
+                    continue
+                for atoms in it.product((0, 1), repeat=nA):
+                    for comps in it.product((0, 1), repeat=nK):
+                        npoints += 1
+                        orig = int(s * (sum(atoms) + sum(comps)) - v >= 0)
+                        got, _ = _truth_of_result(leaf[1], st, atoms, comps)
+                        if got != 1 - orig:
+                            return ('violation', f"counterexample in the abstract semantics: sign={s:+d}, value={v}, {nA} atom children {list(atoms)}, "
+                                                 f"{nK} compound children {list(comps)}: original is {orig}, the returned proposition is {got} (not the complement)")
+    except Uninterp as e:
+        return ('inconclusive', f"not interpretable: {e}")
+    if npoints == 0:
+        return ('ok', 'path infeasible for every abstract state with <= 2 atom and <= 2 compound children, value in [-3,4]')
+    return ('ok', f"no counterexample over {npoints} abstract states (<= 2 atoms, <= 2 compounds, value in [-3,4], children 0/1); "
+                  f"path condition and value' are piecewise linear in these")
 
 
 CONTROL = '''
